@@ -1,4 +1,5 @@
 """C17 — attribute names map to the wire and back without loss."""
+import ast
 import functools
 import os
 import re
@@ -40,7 +41,19 @@ RULE = ("EVERY (bundled map, local attribute) pair of the live tables: one send 
         "attribute class, value-list class, allow, transport)")
 TRUSTED = ["abstraction of saml.Attribute / result dictionaries in harness/c17.py (_abs_attr, _abs_ava)",
            "XML rendering of Attribute elements in harness/c17.py (render_attr)",
-           "translator harness/c17.py regenerate_tables (live converters -> coq/gen/C17Tables.v)"]
+           "translator harness/c17.py regenerate_tables (live converters -> coq/gen/C17Tables.v)",
+           "source-to-Gallina translator v2 harness/py2coq2.py + coq/theories/Base/Py2.v: re-translated from the source text on "
+           "every run into coq/gen/C17Src2.v and proved equal to the model in coq/theories/C17/Source2.v (c17_source2_*): "
+           "saml2.attribute_converter.AttributeConverter.adjust, AttributeConverter.from_dict, AttributeConverter.to_, "
+           "from_local, AttributeConverter.lcd_ava_from and saml2.s_utils.do_ava; external calls are hypotheses of the theorems "
+           "(self.adjust() as called from from_dict; do_ava, to_eptid_value and factory(saml.Attribute, ...) as called from to_; "
+           "aconv.to_ as called from from_local; saml.AttributeValue(), set_text, set_type and the recursive call in do_ava); "
+           "not modelled by the translator: aliasing (mutation of an object by a method called on it: the AttributeValue "
+           "objects of do_ava stay blank), default values of parameters (typ=''), the falsiness of 0.0 (a float is an "
+           "object of class 'float' there), AttributeError of a method called on None (Attribute without Name in "
+           "lcd_ava_from), non-ASCII lower() / strip() at a non-ASCII end; NOT translatable and therefore tied by the "
+           "correspondence check only: list_to_local (ava[key].extend(val)), ava_from (nested tuple target of a for), "
+           "to_eptid_value (nested def, type(x) is not list)"]
 ASSUMPTIONS = [
     "attribute names, name formats and map keys consist of ASCII characters plus non-cased non-ASCII characters: "
     "the model's lower() is the ASCII part of str.lower() (the bundled tables are checked to be pure ASCII on every run)",
@@ -164,9 +177,96 @@ def regenerate_tables(ctx):
     # (c17_bundled_from_dict: every table entry; c17_bundled_symmetric, c17_bundled_pairs_ok_except,
     # c17_bundled_lost_exactly: every (converter, local attribute) pair); the driver sets discharged to 0 when
     # the proofs do not build
-    return {"obligations": n + pairs, "discharged": n + pairs, "unit": "table entries + (converter, attribute) pairs",
+    # translator v2: the decision functions of the anchored code as they read NOW -> coq/gen/C17Src2.v
+    # (C17/Source2.v proves them equal to the model, for all inputs; a function that can no longer be translated
+    # becomes a poisoned definition, so its theorem stops checking)
+    from harness import py2coq2
+    src2 = py2coq2.regenerate(os.path.join(common.GEN, "C17Src2.v"), source2_items())
+    return {"obligations": n + pairs + src2["obligations"], "discharged": n + pairs + src2["discharged"],
+            "unit": "table entries + (converter, attribute) pairs + translated functions",
             "file": os.path.relpath(GEN_FILE, common.VERIF), "maps": len(live), "table_entries": n, "pairs": pairs,
-            "non_ascii_entries": non_ascii, "changed": old != text}
+            "non_ascii_entries": non_ascii, "source2": src2, "untranslatable": list(src2["untranslatable"]),
+            "changed": (old != text) or bool(src2.get("changed"))}
+
+
+ABSENT = '(PObj [("__class__", PStr "<absent>")])'      # a keyword argument that the call does not give
+
+
+def source2_items():
+    """What translator v2 (harness/py2coq2.py) re-translates from the source text on every run.  External calls
+    (object construction, the sibling functions, recursion) are extra parameters of the Gallina definitions;
+    C17/Source2.v quantifies over them (Section variables + hypotheses)."""
+    A = os.path.join(env.SRC, "saml2", "attribute_converter.py")
+    S = os.path.join(env.SRC, "saml2", "s_utils.py")
+    saml_exc = {"SAMLError": ["Exception"], "ConverterError": ["SAMLError", "Exception"],
+                "UnknownNameFormat": ["SAMLError", "Exception"], "OtherError": ["SAMLError", "Exception"]}
+
+    def factory(a, kw):
+        extra = sorted(set(kw) - {"name", "name_format", "friendly_name", "attribute_value"})
+        if len(a) != 1 or extra:
+            raise py2coq2.Untranslatable("factory() with %d positional argument(s) / keywords %s" % (len(a), extra))
+        return "(factory %s %s %s %s %s)" % (a[0], kw.get("name", ABSENT), kw.get("name_format", ABSENT),
+                                             kw.get("friendly_name", ABSENT), kw.get("attribute_value", ABSENT))
+    conv_var = _local_name(A, "from_local", lambda n: isinstance(n, ast.For) and isinstance(n.target, ast.Name)
+                           and isinstance(n.iter, ast.Name) and n.iter.id == "acs" and n.target.id, "aconv")
+    av_var = _local_name(S, "do_ava", lambda n: isinstance(n, ast.Assign) and len(n.targets) == 1
+                         and isinstance(n.targets[0], ast.Name) and isinstance(n.value, ast.Call)
+                         and ast.unparse(n.value.func) == "saml.AttributeValue" and n.targets[0].id, "ava")
+    return [
+        # self is mutated: the definition returns [result; self afterwards]
+        (A, "AttributeConverter.adjust", {"name": "src2_adjust", "params": ["self"], "returns_state": ["self"]}),
+        (A, "AttributeConverter.from_dict", {
+            "name": "src2_from_dict", "params": ["self", "mapdict"], "returns_state": ["self"],
+            "extra_params": [("adjust", "pyval -> pyval")],
+            "calls": {"self.adjust": lambda a: "(adjust v_self)"}, "exc_parents": saml_exc}),
+        (A, "AttributeConverter.to_", {
+            "name": "src2_to_", "params": ["self", "attrvals"],
+            "extra_params": [("do_ava", "pyval -> pyval"), ("to_eptid_value", "pyval -> pyval"),
+                             ("factory", "pyval -> pyval -> pyval -> pyval -> pyval -> pyval")],
+            "globals": {"saml.Attribute": '(PStr "saml.Attribute")'},
+            "calls": {"do_ava": lambda a: "(do_ava %s)" % a[0] if len(a) == 1 else _refuse("do_ava with a typ"),
+                      "self.to_eptid_value": lambda a: "(to_eptid_value %s)" % a[0],
+                      "factory": factory}}),
+        # the receiver of .to_() is the loop variable, whatever it is called
+        (A, "from_local", {
+            "name": "src2_from_local", "params": ["acs", "ava", "name_format"],
+            "extra_params": [("to_", "pyval -> pyval -> pyval")],
+            "calls": {"%s.to_" % conv_var: lambda a: "(to_ v_%s %s)" % (conv_var, a[0])}}),
+        (A, "AttributeConverter.lcd_ava_from", {
+            "name": "src2_lcd_ava_from", "params": ["self", "attribute"], "attr_errors": True}),
+        # the recursive call and the AttributeValue object (saml.AttributeValue(), set_text, set_type) are external
+        (S, "do_ava", {
+            "name": "src2_do_ava", "params": ["val", "typ"],
+            "extra_params": [("do_ava_rec", "pyval -> pyval"), ("set_text", "pyval -> pyval -> pyval"),
+                             ("set_type", "pyval -> pyval -> pyval")],
+            "calls": {"do_ava": lambda a: "(do_ava_rec %s)" % a[0] if len(a) == 1 else _refuse("recursive do_ava with a typ"),
+                      "saml.AttributeValue": '(PObj [("__class__", PStr "AttributeValue")])',
+                      "%s.set_text" % av_var: lambda a: "(set_text v_%s %s)" % (av_var, a[0]),
+                      "%s.set_type" % av_var: lambda a: "(set_type v_%s %s)" % (av_var, a[0])},
+            "classes": {"float": ["float"]}, "lenient_raise_args": True, "exc_parents": saml_exc}),
+    ]
+
+
+def _local_name(path, func, pick, default):
+    """The name of a local variable of `func` as the source spells it NOW (first AST node for which pick() answers
+    a name), so that the spec's receiver-keyed calls follow a mere renaming; `default` when nothing is found (the
+    translation then fails closed on the unknown method call)."""
+    try:
+        with open(path) as f:
+            tree = ast.parse(f.read())
+        fn = next(n for n in tree.body if isinstance(n, ast.FunctionDef) and n.name == func)
+        for n in ast.walk(fn):
+            got = pick(n)
+            if got:
+                return got
+    except (OSError, SyntaxError, StopIteration):
+        pass
+    return default
+
+
+def _refuse(why):
+    from harness import py2coq2
+    raise py2coq2.Untranslatable(why)
 
 
 # ------------------------------------------------------------------------------ real objects
@@ -335,6 +435,10 @@ def observe(case):
             a.from_dict(src_dict(case["src"]))
         except Exception as e:
             return {"exc": _exc(e), "conv": None}
+        if a._to is None or a._fro is None:
+            # from_dict returned without completing the converter (never with the code as it is): observed as a
+            # failed load, which the model (a complete converter) contradicts
+            return {"exc": "incomplete", "conv": None}
         return {"exc": None, "conv": [a.name_format, sorted(map(list, a._to.items())), sorted(map(list, a._fro.items()))]}
     try:
         acs = build_acs(case["acs"])
